@@ -236,6 +236,22 @@ def run(loader, R, tier):
                 if rhs.get("k") == "ref" and rhs.get("n") == "Atom":
                     ok = False
                     from selib import sym as _s
+
+                    def nonneg(c, pol):
+                        k = c.get("k")
+                        if k == "un" and c.get("op") == "!":
+                            return nonneg(c["a"][0], not pol)
+                        if k == "bin" and c.get("op") in ("||", "&&"):
+                            a, b = c["a"]
+                            conj = (c["op"] == "&&") == bool(pol)
+                            if conj:
+                                return nonneg(a, pol) or nonneg(b, pol)
+                            return nonneg(a, pol) and nonneg(b, pol)
+                        return k == "mcall" and (c.get("n"), bool(pol)) \
+                            in NONNEG_CALLS
+                    for g in guards:
+                        if g[0] != "case" and nonneg(g[0], g[1]):
+                            ok = True
                     for g in _s.flatten_guards(guards):
                         if g[0] == "case":
                             continue
